@@ -13,7 +13,6 @@ SPEC = {
         'obligations':
             [ob('harness_int_pair_%d_%d' % (a, b), bounds='equals(%s, %s): both values fully symbolic (64-bit words)' % (T[a], T[b])) for a in range(6) for b in range(6)] +
             [ob('harness_scalar_other_%d_%d' % (a, b), bounds='type #%d (bool/void*/const void*/function pointer) against scalar type #%d, all values' % (a, b)) for a in range(6, 10) for b in range(10)] +
-            []
             [ob('harness_strings', bounds='strings <= 3 bytes'), ob('harness_membuf', bounds='buffers <= 3 bytes, sizes symbolic')] +
             [ob('harness_doubles', bounds='all double bit patterns, both tolerances any non-negative double/inf/NaN', solver='kissat', timeout=900)] +
             [ob('harness_cross_%d_%d' % (o, t), bounds='string/memory buffer/double (#%d) against type #%d' % (o, t)) for o in range(3) for t in list(range(10)) + [x for x in (10, 11, 12) if x != 10 + o]] +
